@@ -63,11 +63,22 @@ def tableMove (t : Table) (extra : List (Name × Line × Name)) (m : Name) (line
       | some e => some (e.2.2, false)
       | none => none
 
-/-- share-group key of the prompt shown in mode `m` -/
+/-- does classification search the way the device assumption needs?  The per-level patterns are written
+    partly with lower-case classes (EOS / NX-OS session patterns, user tables) and anchored per line (`^ … $` on
+    multi-line Junos prompts): the prompt of a level is matched by the patterns of its share group, whatever
+    the case of host and user names, only if `_determine_current_priv` searches with IGNORECASE and MULTILINE.
+    The flags are regenerated from the AST (Gen/PrivConsts.lean `classifyFlags`). -/
+def classifiesPrompts : Bool :=
+  Gen.Priv.classifyFlags.contains "I" && Gen.Priv.classifyFlags.contains "M"
+
+/-- share-group key of the prompt shown in mode `m` (none if classification does not search case-insensitively
+    and per line: then a prompt is not guaranteed to be matched by its own level) -/
 def promptKey (t : Table) (m : Name) : List String :=
-  match lookup t m with
-  | some l => [l.pat]
-  | none => []
+  if classifiesPrompts then
+    match lookup t m with
+    | some l => [l.pat]
+    | none => []
+  else []
 
 def MDev.exec (cfg : MCfg) (t : Table) (s : MDev) (line : Line) : MDev × Reply :=
   match s.pending with
